@@ -141,7 +141,7 @@ def c06(tier, seed):
              "direction 2: archives encoded by the independent implementation (own block splitting incl. empty blocks, ids, recipient order, brotli quality) are read by "
              "get_file, linear_extract and repair; cipher core: AesGcm256 against the aes-gcm crate for boundary lengths x split shapes; "
              "distinct = distinct case; non-trivial = a program with 2 files/pieces or one chunk, any model-encoded archive, any non-empty message",
-        musthit=["lib_to_model:layers1", "lib_to_model:layers3", "model_to_lib:layers3", "model_to_lib:with_empty_content_blocks", "held:cipher",
+        musthit=["lib_to_model:layers1", "lib_to_model:layers3", "model_to_lib:layers3", "model_to_lib:with_empty_content_blocks", "held:cipher", "recipient_key_among_stranger_candidates",
                  "structural:chunks_verified_with_nonce_be32_index"],
         assumptions=["FORMAT.md's worked example lists an offset for every block of a file while the structure comment says 'continuous chunks'; the model encoder emits run starts (not tested as a demand)"],
     )
@@ -284,7 +284,7 @@ def c19(tier, seed):
              "empty paths, unicode / empty / 10 kB strings); the files it writes are compared with the harness's own implementation of the README algorithm (SHA-512, hand-written "
              "ChaCha20 block function, hand-written HMAC/HKDF-SHA512, x25519 base-point multiple), determinism, composition along (p1..pn) vs p1..pn-1 then pn, public matches private; "
              "distinct = distinct inputs; all non-trivial",
-        musthit=["keygen", "keyderive:paths1", "keyderive:composition_checked", "held"],
+        musthit=["keygen", "keyderive:paths1", "keyderive:composition_checked", "keyderive:reading_compared_between_ed25519_and_x25519_parents", "held"],
         assumptions=["README says the HKDF input is 'the clamped private key'; x25519-dalek 2.0's to_bytes() gives the stored bytes before clamping; both readings are accepted and the one observed is reported"],
     )
 
